@@ -764,3 +764,17 @@ VP("R7-onehot-masks-ne", ["C06", "C20"], _B4 % "d-2", "one-hot membership by ine
 VP("R7-onehot-fixed-row", ["C06"], _B4 % "d-2", "the same mask row for every cluster", "kmeans", "members = data[membership[i]]", "members = data[membership[0]]")
 VP("R7-steps-one-short", ["C03"], _B4 % "e-2", "range stops one step early", "gmm", "range(1, int(max_steps) + 1)", "range(1, int(max_steps))")
 VP("R7-steps-count-when-capped", ["C03"], _B4 % "e-2", "unbounded counter when a cap is configured", "gmm", "if max_steps is None:", "if max_steps is not None:")
+
+# ---- round 8: seeded changes of the fifth round (typo-level slips that keep the shape of the code) that led to new rules -------
+VP("R8-lwl-stack", ["C01"], _S % "C01-r5s1", "np.stack instead of np.vstack: a single vector broadcasts into a (C, C) table", kind="break")
+VP("R8-stats-ctor-swapped", ["C02"], _S % "C02-r5s2", "GMMStats(n_features, n_gaussians)", kind="break")
+VP("R8-update-z-constant-precision", ["C07", "C09"], _S % "C07-r5s2", "posterior precision of z from 1 / relevance_factor", kind="break")
+VP("R8-tile-for-repeat", ["C09"], _S % "C09-r5s1", "per-component counts tiled to supervector length", kind="break")
+VP("R8-all-guard", ["C10"], _S % "C10-r5s2", "solve guarded by all(mask)", kind="break")
+VP("R8-pool-guard-gt2", ["C11"], _S % "C11-r5s1", "JFA probes of two statistics not pooled", kind="break")
+VP("R8-no-evidence-on-alpha", ["C13", "C05"], _S % "C13-r5s2", "no-evidence test on the adaptation coefficient", kind="break")
+VP("R8-wccn-scale-n-minus-k", ["C14"], _S % "C14-r5s2", "within-class scatter scaled by N - K", kind="break")
+VP("R8-gnorms-shape-of-argument", ["C17"], _S % "C17-r5s2", "normaliser uses the shape of the raw argument", kind="break")
+VP("R8-cap-falsy", ["C20", "C03"], _S % "C20-r5s2", "iteration cap 0 treated as no cap", kind="break")
+VP("R8-bag-cursor-per-partition", ["C16", "C12"], _S % "C16-r5s2", "label cursor advanced once per partition", kind="break")
+VP("R8-floors-alias-prior", ["C19", "C05"], _S % "C19-r5s2", "variance floors of the prior not copied", kind="break")
